@@ -208,8 +208,24 @@ def r11_2(rep, M, rid, obj, br):
         tv = norm(tr[0].args[0])
         zeroed = [s for s in ast.walk(br) if isinstance(s, ast.Assign) and isinstance(s.targets[0], ast.Subscript) and norm(s.targets[0].value) == tv
                   and norm(s.targets[0].slice) == pv and isinstance(s.value, ast.Constant) and s.value.value == 0]
-        if com and zeroed:
-            rep.ok(rid, "translation = cell centre - periodic centre of mass, zeroed along the periodic directions")
+        # the centre of mass is only *periodic* if the object is fully periodic at that moment (the spglib cell is created with pbc False)
+        com_calls = [c for e in sl["exprs"] for c in ast.walk(e) if isinstance(c, ast.Call) and (GEO + ".get_center_of_mass") in M.callees_of_call(FQ, c)]
+        pbc_true = False
+        if com_calls:
+            cn = fl.node_of(com_calls[0])
+            sets = [(n2, c2) for n2, d2 in fl.cfg.g.nodes(data=True) if d2["ast"] is not None for c2 in walk_own(d2["ast"])
+                    if isinstance(c2, ast.Call) and isinstance(c2.func, ast.Attribute) and c2.func.attr == "set_pbc" and norm(c2.func.value) == obj]
+            before = [(n2, c2) for n2, c2 in sets if fl.cfg.reaches(n2, cn) and n2 != cn]
+            last_true = [n2 for n2, c2 in before if c2.args and isinstance(c2.args[0], ast.Constant) and c2.args[0].value is True]
+            others = [n2 for n2, c2 in before if not (c2.args and isinstance(c2.args[0], ast.Constant) and c2.args[0].value is True)]
+            pbc_true = bool(last_true) and all(fl.cfg.dominates(n2, cn) for n2 in last_true[:1]) and not any(
+                fl.cfg.reaches(lt, o) for lt in last_true for o in others)
+        if com and zeroed and not pbc_true:
+            rep.violation(rid, "2D branch: centring uses a non-periodic centre of mass", f"`{obj}.set_pbc(True)` does not precede get_center_of_mass: the "
+                          "standardised cell is created non-periodic, so the plain arithmetic mean is used and a layer split across the cell boundary is "
+                          "not brought together (the minimised cell then has thickness L - t)", M.where(FQ, tr[0]))
+        elif com and zeroed:
+            rep.ok(rid, "translation = cell centre - periodic centre of mass (object fully periodic at that point), zeroed along the periodic directions")
         else:
             rep.violation(rid, "2D branch: centring translation", f"from matid's periodic centre of mass: {com}; zeroed along periodic axes: {bool(zeroed)}",
                           M.where(FQ, tr[0]))
